@@ -622,7 +622,7 @@ func crossProcessDigests(eng *props.Engine, tier string, seed uint64, runs int, 
 		out string
 		err error
 	}
-	gmps := []string{"1", "4", "16"}
+	gmps := []string{"1", "4", "16", "2"}
 	chunks := 5
 	results := make([][]res, len(gmps))
 	var wg sync.WaitGroup
@@ -635,6 +635,10 @@ func crossProcessDigests(eng *props.Engine, tier string, seed uint64, runs int, 
 				lo, hi := n*c/chunks, n*(c+1)/chunks
 				cmd := exec.Command(self, "digest", eng.Prop, tier, fmt.Sprint(seed), fmt.Sprint(hi), fmt.Sprint(lo), "sut")
 				cmd.Env = append(os.Environ(), "GOMAXPROCS="+gmps[g])
+				if g%2 == 1 {
+					// the same operations in the opposite order, in a process that has parsed nothing else
+					cmd.Env = append(cmd.Env, "VERIF_C06_ORDER=reverse")
+				}
 				out, err := cmd.Output()
 				results[g][c] = res{string(out), err}
 			}(g, c)
@@ -661,8 +665,12 @@ func crossProcessDigests(eng *props.Engine, tier string, seed uint64, runs int, 
 				}
 				compared++
 				if f[1] != want {
-					viols = append(viols, &violRec{Run: i, RunSeed: sim.RunSeed(seed, eng.Name, i), Class: "cross-process", Signature: "C06:cross-process-digest",
-						Detail: fmt.Sprintf("run %d: a fresh process (GOMAXPROCS=%s) computed result digest %s, the worker computed %s for the same inputs and history", i, gmps[g], f[1], want)})
+					sig, how := "C06:cross-process-digest", "for the same inputs and history"
+					if g%2 == 1 {
+						sig, how = "C06:order-of-calls-digest", "executing the same operations in the opposite order"
+					}
+					viols = append(viols, &violRec{Run: i, RunSeed: sim.RunSeed(seed, eng.Name, i), Class: "cross-process", Signature: sig,
+						Detail: fmt.Sprintf("run %d: a fresh process (GOMAXPROCS=%s) computed per-operation result digests %s, the worker computed %s %s", i, gmps[g], f[1], want, how)})
 				}
 			}
 		}
@@ -798,6 +806,9 @@ func replay(args []string) int {
 		for k, gmp := range []string{"1", "4", "16", "2"} {
 			cmd := exec.Command(self, "digest", rf.Property, rf.Tier, fmt.Sprint(rf.Seed), fmt.Sprint(rf.Run+1), fmt.Sprint(rf.Run), "sut")
 			cmd.Env = append(os.Environ(), "GOMAXPROCS="+gmp)
+			if k%2 == 1 {
+				cmd.Env = append(cmd.Env, "VERIF_C06_ORDER=reverse")
+			}
 			out, err := cmd.Output()
 			if err != nil {
 				fmt.Fprintln(os.Stderr, "[verif] digest child failed:", err)
